@@ -1,46 +1,351 @@
 //! C02 — the global recorder is installed at most once and is seen whole by everyone.
 //!
-//! Real `RecorderOnceCell`s (fresh per run, via `metrics::verif::RecorderCell`) raced by installer and
-//! loader threads under the deterministic scheduler; the granted schedule is replayed on the Lean step
-//! machine (`cell run …`), which must take the same steps (same point ids) and produce the same results.
-//! A subprocess-free test of the real `GLOBAL_RECORDER` is part of C01's stream.
+//! Two streams, both replayed on the Lean step machine, which must take the same steps (same point ids)
+//! and produce the same per-call results:
+//!
+//! * `cell run …`  — real `RecorderOnceCell`s (fresh per run, via `metrics::verif::RecorderCell`) raced by
+//!   installer and loader threads under the deterministic scheduler. Installers hand in recorders of several
+//!   shapes (sized struct, `Box<dyn …>`, zero-sized, over-aligned, `Arc`), and look at what comes back in
+//!   several ways (`into_inner`, field `.0`, dropping the error unopened).
+//! * `cell grun …` — the REAL process-wide path: `metrics::set_global_recorder`, `metrics::with_recorder` and
+//!   the emission macros on `GLOBAL_RECORDER`, multi-call programs on long-lived threads (emit before, during
+//!   and after installation; emissions under a local recorder in between), under the same scheduler. The
+//!   global cell can be set once per process, so every case runs in a child process (this binary re-executed
+//!   with `MV_C02_CHILD=<spec>`); the child prints the trace, the per-call results and its oracle verdicts.
 
 use crate::sched;
 use crate::util::*;
-use metrics::{Counter, Gauge, Histogram, Key, KeyName, Metadata, Recorder, SharedString, Unit};
+use metrics::{Counter, Gauge, Histogram, Key, KeyName, Metadata, Recorder, SetRecorderError, SharedString, Unit};
+use std::cell::RefCell;
 use std::sync::atomic::{AtomicUsize, Ordering};
 use std::sync::{Arc, Mutex};
 
-/// id of the recorder double that was last called (only one managed thread runs at a time)
-static LAST_CALLED: AtomicUsize = AtomicUsize::new(usize::MAX);
+// ---------------------------------------------------------------------------------------------------------
+// recorder doubles (shared by both streams)
 
+const MAGIC: u64 = 0xC0FFEE;
+const NREC: usize = 64;
+#[allow(clippy::declare_interior_mutable_const)]
+const ZERO: AtomicUsize = AtomicUsize::new(0);
+/// how often the double with this id was dropped / called (reset at the start of every in-process case)
+static DROPS: [AtomicUsize; NREC] = [ZERO; NREC];
+static CALLS: [AtomicUsize; NREC] = [ZERO; NREC];
+/// logical clock for the happens-before oracles (managed threads run one at a time)
+static CLOCK: AtomicUsize = AtomicUsize::new(0);
+
+thread_local! {
+    /// what the emissions of this thread reached since the log was last taken
+    static SEEN: RefCell<Vec<String>> = RefCell::new(Vec::new());
+}
+
+fn tick() -> usize {
+    CLOCK.fetch_add(1, Ordering::SeqCst)
+}
+fn reset_counters() {
+    for i in 0..NREC {
+        DROPS[i].store(0, Ordering::SeqCst);
+        CALLS[i].store(0, Ordering::SeqCst);
+    }
+}
+fn hit(id: usize, intact: bool) {
+    CALLS[id % NREC].fetch_add(1, Ordering::SeqCst);
+    SEEN.with(|s| s.borrow_mut().push(if intact { format!("some{}", id) } else { "some9999".to_string() }));
+}
+/// result of one emission: what it reached (`none` = no double was called, i.e. the no-op recorder)
+fn take_seen() -> String {
+    let v = SEEN.with(|s| std::mem::take(&mut *s.borrow_mut()));
+    match v.len() {
+        0 => "none".to_string(),
+        1 => v[0].clone(),
+        _ => v.join("&"), // one emission dispatched more than once
+    }
+}
+
+/// what the oracles need to know about a recorder that was handed back
+trait Probe {
+    fn pid(&self) -> usize;
+    fn intact(&self) -> bool;
+}
+
+macro_rules! impl_recorder_double {
+    ($ty:ty) => {
+        impl Recorder for $ty {
+            fn describe_counter(&self, _: KeyName, _: Option<Unit>, _: SharedString) {
+                hit(self.pid(), self.intact());
+            }
+            fn describe_gauge(&self, _: KeyName, _: Option<Unit>, _: SharedString) {
+                hit(self.pid(), self.intact());
+            }
+            fn describe_histogram(&self, _: KeyName, _: Option<Unit>, _: SharedString) {
+                hit(self.pid(), self.intact());
+            }
+            fn register_counter(&self, _: &Key, _: &Metadata<'_>) -> Counter {
+                hit(self.pid(), self.intact());
+                Counter::noop()
+            }
+            fn register_gauge(&self, _: &Key, _: &Metadata<'_>) -> Gauge {
+                hit(self.pid(), self.intact());
+                Gauge::noop()
+            }
+            fn register_histogram(&self, _: &Key, _: &Metadata<'_>) -> Histogram {
+                hit(self.pid(), self.intact());
+                Histogram::noop()
+            }
+        }
+    };
+}
+
+/// plain sized recorder with content; `whole` is set last in the constructor
 struct Rec {
     id: usize,
-    drops: Arc<Vec<AtomicUsize>>,
-    whole: u64, // set last in the constructor; a recorder seen "whole" has the magic value
+    payload: [u64; 6],
+    whole: u64,
+}
+fn payload_of(id: usize, k: usize) -> u64 {
+    (id as u64 + 1).wrapping_mul(0x9E37_79B9_7F4A_7C15).rotate_left(k as u32 * 7 + 1)
+}
+impl Rec {
+    fn new(id: usize) -> Rec {
+        let mut payload = [0u64; 6];
+        for (k, p) in payload.iter_mut().enumerate() {
+            *p = payload_of(id, k);
+        }
+        Rec { id, payload, whole: MAGIC }
+    }
 }
 impl Drop for Rec {
     fn drop(&mut self) {
-        self.drops[self.id].fetch_add(1, Ordering::SeqCst);
+        DROPS[self.id % NREC].fetch_add(1, Ordering::SeqCst);
     }
 }
-impl Recorder for Rec {
-    fn describe_counter(&self, _: KeyName, _: Option<Unit>, _: SharedString) {
-        let v = if self.whole == 0xC0FFEE { self.id } else { 9999 };
-        LAST_CALLED.store(v, Ordering::SeqCst);
+impl Probe for Rec {
+    fn pid(&self) -> usize {
+        self.id
     }
-    fn describe_gauge(&self, _: KeyName, _: Option<Unit>, _: SharedString) {}
-    fn describe_histogram(&self, _: KeyName, _: Option<Unit>, _: SharedString) {}
+    fn intact(&self) -> bool {
+        self.whole == MAGIC && self.payload.iter().enumerate().all(|(k, p)| *p == payload_of(self.id, k))
+    }
+}
+impl_recorder_double!(Rec);
+
+/// over-aligned and large
+#[repr(align(256))]
+struct Big {
+    pad: [u8; 300],
+    inner: Rec,
+}
+impl Big {
+    fn new(id: usize) -> Big {
+        let mut pad = [0u8; 300];
+        for (k, p) in pad.iter_mut().enumerate() {
+            *p = (id * 31 + k) as u8;
+        }
+        Big { pad, inner: Rec::new(id) }
+    }
+}
+impl Probe for Big {
+    fn pid(&self) -> usize {
+        self.inner.id
+    }
+    fn intact(&self) -> bool {
+        (self as *const Big as usize) % 256 == 0
+            && self.inner.intact()
+            && self.pad.iter().enumerate().all(|(k, p)| *p == (self.inner.id * 31 + k) as u8)
+    }
+}
+impl_recorder_double!(Big);
+
+/// zero-sized recorder (`Box::leak(Box::new(zst))` is a dangling-but-valid pointer)
+struct Zst<const N: usize>;
+impl<const N: usize> Drop for Zst<N> {
+    fn drop(&mut self) {
+        DROPS[N % NREC].fetch_add(1, Ordering::SeqCst);
+    }
+}
+impl<const N: usize> Probe for Zst<N> {
+    fn pid(&self) -> usize {
+        N
+    }
+    fn intact(&self) -> bool {
+        true
+    }
+}
+impl<const N: usize> Recorder for Zst<N> {
+    fn describe_counter(&self, _: KeyName, _: Option<Unit>, _: SharedString) {
+        hit(N, true);
+    }
+    fn describe_gauge(&self, _: KeyName, _: Option<Unit>, _: SharedString) {
+        hit(N, true);
+    }
+    fn describe_histogram(&self, _: KeyName, _: Option<Unit>, _: SharedString) {
+        hit(N, true);
+    }
     fn register_counter(&self, _: &Key, _: &Metadata<'_>) -> Counter {
+        hit(N, true);
         Counter::noop()
     }
     fn register_gauge(&self, _: &Key, _: &Metadata<'_>) -> Gauge {
+        hit(N, true);
         Gauge::noop()
     }
     fn register_histogram(&self, _: &Key, _: &Metadata<'_>) -> Histogram {
+        hit(N, true);
         Histogram::noop()
     }
 }
+
+/// trait object behind a box (unsized payload, the shape exporters' builders hand in)
+trait DynRec: Recorder + Probe + Send + Sync {}
+impl DynRec for Rec {}
+impl DynRec for Big {}
+impl Probe for Box<dyn DynRec> {
+    fn pid(&self) -> usize {
+        (**self).pid()
+    }
+    fn intact(&self) -> bool {
+        (**self).intact()
+    }
+}
+impl Probe for Arc<Rec> {
+    fn pid(&self) -> usize {
+        (**self).pid()
+    }
+    fn intact(&self) -> bool {
+        // handed back intact also means: nobody kept a clone of the Arc
+        (**self).intact() && Arc::strong_count(self) == 1
+    }
+}
+
+/// local recorder double (for emissions under `with_local_recorder`)
+struct LRec {
+    id: usize,
+}
+impl Recorder for LRec {
+    fn describe_counter(&self, _: KeyName, _: Option<Unit>, _: SharedString) {
+        self.seen()
+    }
+    fn describe_gauge(&self, _: KeyName, _: Option<Unit>, _: SharedString) {
+        self.seen()
+    }
+    fn describe_histogram(&self, _: KeyName, _: Option<Unit>, _: SharedString) {
+        self.seen()
+    }
+    fn register_counter(&self, _: &Key, _: &Metadata<'_>) -> Counter {
+        self.seen();
+        Counter::noop()
+    }
+    fn register_gauge(&self, _: &Key, _: &Metadata<'_>) -> Gauge {
+        self.seen();
+        Gauge::noop()
+    }
+    fn register_histogram(&self, _: &Key, _: &Metadata<'_>) -> Histogram {
+        self.seen();
+        Histogram::noop()
+    }
+}
+impl LRec {
+    fn seen(&self) {
+        SEEN.with(|s| s.borrow_mut().push(format!("local{}", self.id)));
+    }
+}
+
+const NKINDS: usize = 5;
+fn kind_of(id: usize, salt: usize) -> usize {
+    let k = (id + salt) % NKINDS;
+    if k == 2 && !(1..=12).contains(&id) {
+        0
+    } else {
+        k
+    }
+}
+fn kind_name(k: usize) -> &'static str {
+    ["sized", "box-dyn", "zst", "over-aligned", "arc"][k]
+}
+
+/// what the caller does with a rejected installation: result string (`err<id>`; anything else is a defect)
+fn look_at_rejection<R: Probe>(e: SetRecorderError<R>, id: usize, how: usize) -> String {
+    // the error's own Display/Debug must not need the recorder
+    let shown = format!("{} / {:?}", e, e);
+    if !shown.contains("already initialized") {
+        return format!("err{}!display", id);
+    }
+    let back = match how % 3 {
+        0 => e.into_inner(),
+        1 => e.0,
+        _ => {
+            // dropped unopened: the drop counter is all there is to see
+            drop(e);
+            return format!("err{}", id);
+        }
+    };
+    let s = if !back.intact() { format!("err{}!damaged", back.pid()) } else { format!("err{}", back.pid()) };
+    drop(back);
+    s
+}
+
+macro_rules! with_zst {
+    ($id:expr, $f:expr) => {
+        match $id {
+            1 => $f(Zst::<1>),
+            2 => $f(Zst::<2>),
+            3 => $f(Zst::<3>),
+            4 => $f(Zst::<4>),
+            5 => $f(Zst::<5>),
+            6 => $f(Zst::<6>),
+            7 => $f(Zst::<7>),
+            8 => $f(Zst::<8>),
+            9 => $f(Zst::<9>),
+            10 => $f(Zst::<10>),
+            11 => $f(Zst::<11>),
+            _ => $f(Zst::<12>),
+        }
+    };
+}
+
+/// one installation on a private cell
+fn cell_install(cell: &metrics::verif::RecorderCell, id: usize, salt: usize) -> String {
+    fn go<R: Recorder + Probe + 'static>(cell: &metrics::verif::RecorderCell, r: R, id: usize, how: usize) -> String {
+        match cell.set(r) {
+            Ok(()) => "ok".to_string(),
+            Err(e) => look_at_rejection(e, id, how),
+        }
+    }
+    let how = id / 2 + salt;
+    match kind_of(id, salt) {
+        0 => go(cell, Rec::new(id), id, how),
+        1 => {
+            let b: Box<dyn DynRec> = if id % 2 == 0 { Box::new(Rec::new(id)) } else { Box::new(Big::new(id)) };
+            go(cell, b, id, how)
+        }
+        2 => with_zst!(id, |z| go(cell, z, id, how)),
+        3 => go(cell, Big::new(id), id, how),
+        _ => go(cell, Arc::new(Rec::new(id)), id, how),
+    }
+}
+
+/// one installation on the real global cell
+fn global_install(id: usize, salt: usize) -> String {
+    fn go<R: Recorder + Probe + Sync + 'static>(r: R, id: usize, how: usize) -> String {
+        match metrics::set_global_recorder(r) {
+            Ok(()) => "ok".to_string(),
+            Err(e) => look_at_rejection(e, id, how),
+        }
+    }
+    let how = id / 2 + salt;
+    match kind_of(id, salt) {
+        0 => go(Rec::new(id), id, how),
+        1 => {
+            let b: Box<dyn DynRec> = if id % 2 == 0 { Box::new(Rec::new(id)) } else { Box::new(Big::new(id)) };
+            go(b, id, how)
+        }
+        2 => with_zst!(id, |z| go(z, id, how)),
+        3 => go(Big::new(id), id, how),
+        _ => go(Arc::new(Rec::new(id)), id, how),
+    }
+}
+
+// ---------------------------------------------------------------------------------------------------------
+// stream 1: private cells
 
 #[derive(Clone, Copy, Debug)]
 enum Call {
@@ -63,43 +368,31 @@ fn prog_tok(p: &[Call]) -> String {
 
 struct Outcome {
     results: Vec<Vec<String>>,
-    final_cell: Option<usize>,
+    final_cell: Option<String>,
     drops: Vec<usize>,
+    calls: Vec<usize>,
     run: sched::RunResult,
 }
 
-fn execute(progs: &[Vec<Call>], schedule: &[usize]) -> Outcome {
+fn execute(progs: &[Vec<Call>], schedule: &[usize], salt: usize) -> Outcome {
+    reset_counters();
     let cell = Arc::new(metrics::verif::RecorderCell::new());
-    let nrec = 16;
-    let drops: Arc<Vec<AtomicUsize>> = Arc::new((0..nrec).map(|_| AtomicUsize::new(0)).collect());
     let results: Arc<Mutex<Vec<Vec<String>>>> = Arc::new(Mutex::new(vec![vec![]; progs.len()]));
     let mut bodies: Vec<Box<dyn FnOnce() + Send + 'static>> = vec![];
     for (t, prog) in progs.iter().enumerate() {
         let prog = prog.clone();
         let cell = cell.clone();
-        let drops = drops.clone();
         let results = results.clone();
         bodies.push(Box::new(move || {
             for c in prog {
                 let r = match c {
-                    Call::Set(id) => {
-                        let rec = Rec { id, drops: drops.clone(), whole: 0xC0FFEE };
-                        match cell.set(rec) {
-                            Ok(()) => "ok".to_string(),
-                            Err(e) => {
-                                let back = e.into_inner();
-                                let s = format!("err{}", back.id);
-                                drop(back);
-                                s
-                            }
-                        }
-                    }
+                    Call::Set(id) => cell_install(&cell, id, salt),
                     Call::Load => match cell.try_load() {
                         Some(r) => {
                             // dispatch an emission to it, as `with_recorder` would
-                            LAST_CALLED.store(usize::MAX, Ordering::SeqCst);
+                            let _ = take_seen();
                             r.describe_counter(KeyName::from_const_str("probe"), None, SharedString::const_str(""));
-                            format!("some{}", LAST_CALLED.load(Ordering::SeqCst))
+                            take_seen()
                         }
                         None => "none".to_string(),
                     },
@@ -110,24 +403,18 @@ fn execute(progs: &[Vec<Call>], schedule: &[usize]) -> Outcome {
     }
     let run = sched::run(bodies, schedule);
     let res = results.lock().unwrap().clone();
-    // winner = the thread whose set returned ok
-    let mut winner = None;
-    for (t, prog) in progs.iter().enumerate() {
-        for (i, c) in prog.iter().enumerate() {
-            if let (Call::Set(id), Some(r)) = (c, res[t].get(i)) {
-                if r == "ok" {
-                    winner = Some(*id);
-                }
-            }
-        }
-    }
-    let _ = winner;
     let final_cell = cell.try_load().map(|r| {
-        LAST_CALLED.store(usize::MAX, Ordering::SeqCst);
+        let _ = take_seen();
         r.describe_counter(KeyName::from_const_str("probe"), None, SharedString::const_str(""));
-        LAST_CALLED.load(Ordering::SeqCst)
+        take_seen().trim_start_matches("some").to_string()
     });
-    Outcome { results: res, final_cell, drops: drops.iter().map(|d| d.load(Ordering::SeqCst)).collect(), run }
+    Outcome {
+        results: res,
+        final_cell,
+        drops: DROPS.iter().map(|d| d.load(Ordering::SeqCst)).collect(),
+        calls: CALLS.iter().map(|d| d.load(Ordering::SeqCst)).collect(),
+        run,
+    }
 }
 
 fn answer(o: &Outcome) -> String {
@@ -137,8 +424,8 @@ fn answer(o: &Outcome) -> String {
         "{} | {} | cell={}",
         labels.join("."),
         res,
-        match o.final_cell {
-            Some(r) => r.to_string(),
+        match &o.final_cell {
+            Some(r) => r.clone(),
             None => "~".into(),
         }
     )
@@ -153,7 +440,13 @@ fn oracle(out: &mut Out, progs: &[Vec<Call>], o: &Outcome) {
     let mut winner = None;
     for (t, prog) in progs.iter().enumerate() {
         for (i, c) in prog.iter().enumerate() {
-            let r = &o.results[t][i];
+            let r = match o.results[t].get(i) {
+                Some(r) => r,
+                None => {
+                    out.oracle_fail("install/lookup race: a call did not complete", &format!("thread {} call {}", t, i));
+                    continue;
+                }
+            };
             match c {
                 Call::Set(id) => {
                     if r == "ok" {
@@ -163,12 +456,20 @@ fn oracle(out: &mut Out, progs: &[Vec<Call>], o: &Outcome) {
                             out.oracle_fail("installed recorder was dropped by the library", &format!("id {}", id));
                         }
                     } else if *r != format!("err{}", id) {
-                        out.oracle_fail("rejected installation did not hand back the caller's own recorder", r);
-                    } else if o.drops[*id] != 1 {
-                        out.oracle_fail(
-                            "rejected recorder dropped or leaked by the library (drop count != 1 after the caller dropped it)",
-                            &format!("id {} drops {}", id, o.drops[*id]),
-                        );
+                        out.oracle_fail("rejected installation did not hand back the caller's own recorder intact", r);
+                    } else {
+                        if o.drops[*id] != 1 {
+                            out.oracle_fail(
+                                "rejected recorder dropped or leaked by the library (drop count != 1 after the caller dropped it)",
+                                &format!("id {} drops {}", id, o.drops[*id]),
+                            );
+                        }
+                        if o.calls[*id] != 0 {
+                            out.oracle_fail(
+                                "rejected recorder was used by the library before it was handed back",
+                                &format!("id {} calls {}", id, o.calls[*id]),
+                            );
+                        }
                     }
                 }
                 Call::Load => {}
@@ -199,7 +500,7 @@ fn oracle(out: &mut Out, progs: &[Vec<Call>], o: &Outcome) {
                     // k-th load of thread t
                     let idx = progs[*t].iter().enumerate().filter(|(_, c)| matches!(c, Call::Load)).nth(k).map(|x| x.0);
                     if let Some(i) = idx {
-                        if !o.results[*t][i].starts_with("some") {
+                        if !o.results[*t].get(i).map_or(false, |r| r.starts_with("some")) {
                             out.oracle_fail(
                                 "a lookup that started after another lookup had seen the recorder returned None",
                                 &format!("thread {} call {} trace {:?}", t, i, o.run.trace),
@@ -232,7 +533,470 @@ fn gen_progs(r: &mut Rng) -> Vec<Vec<Call>> {
     progs
 }
 
+/// random schedule with bursts (a thread keeps the token for a while, then a switch)
+fn bursty(r: &mut Rng, threads: usize, len: usize) -> Vec<usize> {
+    let mut sch = vec![];
+    let mut cur = r.below(threads);
+    for _ in 0..len {
+        if r.chance(1, 2) {
+            cur = r.below(threads);
+        }
+        sch.push(cur);
+    }
+    sch
+}
+
+// ---------------------------------------------------------------------------------------------------------
+// stream 2: the real global path, one child process per case
+
+#[derive(Clone, Copy, Debug, PartialEq)]
+enum GCall {
+    /// `set_global_recorder(recorder id)`
+    Install(usize),
+    /// emission without a local recorder, through form `f`
+    Emit(usize),
+    /// emission inside `with_local_recorder(local id, ..)`, through form `f`
+    EmitLocal(usize, usize),
+}
+
+const NFORMS: usize = 6;
+fn form_name(f: usize) -> &'static str {
+    ["with_recorder", "counter!", "gauge!", "histogram!", "describe_gauge!", "counter!+labels"][f % NFORMS]
+}
+/// one emission through the public API; every form calls exactly one method of the recorder in scope
+fn emit(form: usize) {
+    match form % NFORMS {
+        0 => metrics::with_recorder(|r| {
+            r.describe_counter(KeyName::from_const_str("c02.probe"), None, SharedString::const_str(""))
+        }),
+        1 => metrics::counter!("c02.counter").increment(1),
+        2 => metrics::gauge!("c02.gauge").set(1.0),
+        3 => metrics::histogram!("c02.histogram").record(0.5),
+        4 => metrics::describe_gauge!("c02.gauge", "described"),
+        _ => metrics::counter!("c02.counter", "k" => "v").increment(2),
+    }
+}
+
+fn gprog_tok(p: &[GCall], for_model: bool) -> String {
+    if p.is_empty() {
+        return "-".into();
+    }
+    p.iter()
+        .map(|c| match (c, for_model) {
+            (GCall::Install(r), _) => format!("s{}", r),
+            (GCall::Emit(_), true) => "e".to_string(),
+            (GCall::Emit(f), false) => format!("e{}", f),
+            (GCall::EmitLocal(l, _), true) => format!("x{}", l),
+            (GCall::EmitLocal(l, f), false) => format!("x{}f{}", l, f),
+        })
+        .collect::<Vec<_>>()
+        .join("+")
+}
+fn gprogs_tok(progs: &[Vec<GCall>], for_model: bool) -> String {
+    list(progs.iter().map(|p| gprog_tok(p, for_model)))
+}
+fn parse_gprogs(s: &str) -> Vec<Vec<GCall>> {
+    if s == "." {
+        return vec![];
+    }
+    s.split(',')
+        .map(|p| {
+            if p == "-" {
+                return vec![];
+            }
+            p.split('+')
+                .map(|c| {
+                    let (h, rest) = c.split_at(1);
+                    match h {
+                        "s" => GCall::Install(rest.parse().unwrap()),
+                        "e" => GCall::Emit(rest.parse().unwrap()),
+                        "x" => {
+                            let (l, f) = rest.split_once('f').unwrap();
+                            GCall::EmitLocal(l.parse().unwrap(), f.parse().unwrap())
+                        }
+                        _ => panic!("bad child spec {}", c),
+                    }
+                })
+                .collect()
+        })
+        .collect()
+}
+
+const API_POINT: &str = "api.call";
+
+struct Ev {
+    start: usize,
+    end: usize,
+    result: String,
+}
+
+/// child process: runs ONE case on the real global recorder, prints
+///   ANSWER <labels> | <results> | cell=<id|~>      (same shape as the model's answer)
+///   TAKEN <schedule actually taken>   CHOICES <runnable sets>   FAIL <what> :: <detail>
+fn child(spec: &str) {
+    let parts: Vec<&str> = spec.split(';').collect();
+    let progs = parse_gprogs(parts[0]);
+    let schedule: Vec<usize> =
+        if parts[1] == "-" { vec![] } else { parts[1].split('.').map(|x| x.parse().unwrap()).collect() };
+    let salt: usize = parts[2].parse().unwrap();
+    let mut fails: Vec<(String, String)> = vec![];
+
+    let events: Arc<Mutex<Vec<Vec<Ev>>>> = Arc::new(Mutex::new((0..progs.len()).map(|_| vec![]).collect()));
+    let mut bodies: Vec<Box<dyn FnOnce() + Send + 'static>> = vec![];
+    for (t, prog) in progs.iter().enumerate() {
+        let prog = prog.clone();
+        let events = events.clone();
+        bodies.push(Box::new(move || {
+            for c in prog {
+                // harness-level yield point between two API calls of a thread: the thread can be held here
+                // for as long as the schedule likes whatever the library does (or no longer does) inside
+                // the call. The grant does thread-local work only, so it is elided from the model's schedule.
+                metrics::verif::point(API_POINT);
+                let _ = take_seen();
+                let start = tick();
+                let result = match c {
+                    GCall::Install(id) => global_install(id, salt),
+                    GCall::Emit(f) => {
+                        emit(f);
+                        take_seen()
+                    }
+                    GCall::EmitLocal(l, f) => {
+                        let lrec = LRec { id: l };
+                        metrics::with_local_recorder(&lrec, || emit(f));
+                        take_seen()
+                    }
+                };
+                let end = tick();
+                events.lock().unwrap()[t].push(Ev { start, end, result });
+            }
+        }));
+    }
+    let run = sched::run(bodies, &schedule);
+    let events = events.lock().unwrap();
+    if run.deadlock || run.timed_out || !run.panicked.is_empty() {
+        fails.push(("global path: deadlock, timeout or panic".into(), format!("{:?}", run)));
+    }
+
+    // ---- oracles on what the real API answered (independent of the model)
+    let mut winner: Option<usize> = None;
+    let mut ok_end: Option<usize> = None;
+    let mut oks = 0;
+    let mut first_install_start: Option<usize> = None;
+    for (t, prog) in progs.iter().enumerate() {
+        for (i, c) in prog.iter().enumerate() {
+            let ev = match events[t].get(i) {
+                Some(e) => e,
+                None => {
+                    fails.push(("global path: a call did not complete".into(), format!("thread {} call {}", t, i)));
+                    continue;
+                }
+            };
+            if let GCall::Install(id) = c {
+                first_install_start = Some(first_install_start.map_or(ev.start, |x: usize| x.min(ev.start)));
+                if ev.result == "ok" {
+                    oks += 1;
+                    winner = Some(*id);
+                    ok_end = Some(ev.end);
+                    if DROPS[*id].load(Ordering::SeqCst) != 0 {
+                        fails.push(("installed recorder was dropped by the library".into(), format!("id {}", id)));
+                    }
+                } else if ev.result != format!("err{}", id) {
+                    fails.push((
+                        "rejected installation did not hand back the caller's own recorder intact".into(),
+                        format!("set_global_recorder(recorder {} [{}]) answered {}", id, kind_name(kind_of(*id, salt)), ev.result),
+                    ));
+                } else {
+                    let d = DROPS[*id].load(Ordering::SeqCst);
+                    if d != 1 {
+                        fails.push((
+                            "rejected recorder dropped or leaked by the library (drop count != 1 after the caller dropped it)".into(),
+                            format!("id {} [{}] drops {}", id, kind_name(kind_of(*id, salt)), d),
+                        ));
+                    }
+                    let n = CALLS[*id].load(Ordering::SeqCst);
+                    if n != 0 {
+                        fails.push((
+                            "rejected recorder was used by the library before it was handed back".into(),
+                            format!("id {} calls {}", id, n),
+                        ));
+                    }
+                }
+            }
+        }
+    }
+    if oks > 1 {
+        fails.push(("more than one global-recorder installation succeeded".into(), format!("{} Ok results", oks)));
+    }
+    // earliest completion of an emission that reached the installed recorder
+    let mut first_dispatch_end: Option<usize> = None;
+    for (t, prog) in progs.iter().enumerate() {
+        for (i, c) in prog.iter().enumerate() {
+            if let (GCall::Emit(_), Some(ev)) = (c, events[t].get(i)) {
+                if ev.result.starts_with("some") {
+                    first_dispatch_end = Some(first_dispatch_end.map_or(ev.end, |x: usize| x.min(ev.end)));
+                }
+            }
+        }
+    }
+    let mut delivered = 0usize;
+    for (t, prog) in progs.iter().enumerate() {
+        for (i, c) in prog.iter().enumerate() {
+            let ev = match events[t].get(i) {
+                Some(e) => e,
+                None => continue,
+            };
+            let desc = || {
+                format!(
+                    "thread {} call {} ({}) answered {}; programs {} schedule {}",
+                    t,
+                    i,
+                    match c {
+                        GCall::Emit(f) | GCall::EmitLocal(_, f) => form_name(*f),
+                        _ => "",
+                    },
+                    ev.result,
+                    gprogs_tok(&progs, false),
+                    sched::sched_tok(&run.trace.iter().map(|(t, _)| *t).collect::<Vec<_>>())
+                )
+            };
+            match c {
+                GCall::Emit(_) => {
+                    let to_winner = winner.map_or(false, |w| ev.result == format!("some{}", w));
+                    if to_winner {
+                        delivered += 1;
+                    }
+                    if ev.result != "none" && !to_winner {
+                        fails.push(("an emission reached something other than the installed recorder or the no-op recorder".into(), desc()));
+                    }
+                    if let Some(fd) = first_dispatch_end {
+                        if fd < ev.start && !to_winner {
+                            fails.push((
+                                "an emission that started after another emission had been dispatched to the installed recorder did not reach it".into(),
+                                desc(),
+                            ));
+                        }
+                    }
+                    if let Some(oe) = ok_end {
+                        if oe < ev.start && !to_winner {
+                            fails.push((
+                                "an emission that started after set_global_recorder had returned Ok did not reach the installed recorder".into(),
+                                desc(),
+                            ));
+                        }
+                    }
+                    if first_install_start.map_or(true, |fi| ev.end < fi) && ev.result != "none" {
+                        fails.push(("an emission that completed before any installation began had an effect".into(), desc()));
+                    }
+                }
+                GCall::EmitLocal(l, _) => {
+                    if ev.result != format!("local{}", l) {
+                        fails.push(("an emission under a local recorder did not reach exactly that recorder".into(), desc()));
+                    }
+                }
+                GCall::Install(_) => {}
+            }
+        }
+    }
+    // after the race: the main thread and a fresh unmanaged thread emit once each
+    let _ = take_seen();
+    emit(0);
+    let fin = take_seen();
+    let fresh = std::thread::spawn(|| {
+        emit(1);
+        take_seen()
+    })
+    .join()
+    .unwrap_or_else(|_| "panic".into());
+    let expect = winner.map_or("none".to_string(), |w| format!("some{}", w));
+    if fin != expect || fresh != expect {
+        fails.push((
+            "after the race an emission did not reach the installed recorder (or reached one although none was installed)".into(),
+            format!("main thread {} fresh thread {} expected {}", fin, fresh, expect),
+        ));
+    }
+    if let Some(w) = winner {
+        let n = CALLS[w].load(Ordering::SeqCst);
+        if n != delivered + 2 {
+            fails.push((
+                "the installed recorder was not called exactly once per emission dispatched to it".into(),
+                format!("calls {} emissions {}", n, delivered + 2),
+            ));
+        }
+    }
+
+    let labels: Vec<&str> = run.trace.iter().map(|(_, id)| *id).filter(|id| *id != API_POINT).collect();
+    let mtaken: Vec<usize> = run.trace.iter().filter(|(_, id)| *id != API_POINT).map(|(t, _)| *t).collect();
+    let res = list(events.iter().map(|evs| {
+        if evs.is_empty() {
+            ".".to_string()
+        } else {
+            evs.iter().map(|e| e.result.clone()).collect::<Vec<_>>().join("+")
+        }
+    }));
+    let cell = fin.strip_prefix("some").map(|s| s.to_string()).unwrap_or_else(|| "~".into());
+    println!("ANSWER {} | {} | cell={}", labels.join("."), res, cell);
+    println!("TAKEN {}", sched::sched_tok(&run.trace.iter().map(|(t, _)| *t).collect::<Vec<_>>()));
+    println!("MTAKEN {}", sched::sched_tok(&mtaken));
+    println!(
+        "CHOICES {}",
+        run.choices.iter().map(|c| c.iter().map(|x| x.to_string()).collect::<Vec<_>>().join(".")).collect::<Vec<_>>().join(",")
+    );
+    for (w, d) in fails {
+        println!("FAIL {} :: {}", w.replace('\n', " "), d.replace('\n', " "));
+    }
+}
+
+struct GOutcome {
+    answer: String,
+    /// every grant (for replay / enumeration)
+    taken: Vec<usize>,
+    /// grants at library yield points only (the model's schedule)
+    mtaken: Vec<usize>,
+    choices: Vec<Vec<usize>>,
+    fails: Vec<(String, String)>,
+}
+
+fn run_child(cfg: &Cfg, progs: &[Vec<GCall>], schedule: &[usize], salt: usize) -> GOutcome {
+    let exe = std::env::current_exe().expect("current_exe");
+    let spec = format!("{};{};{}", gprogs_tok(progs, false), sched::sched_tok(schedule), salt);
+    let scratch = cfg.out.join("child");
+    let outp = std::process::Command::new(exe)
+        .arg("C02")
+        .arg("--out")
+        .arg(&scratch)
+        .arg("--cases")
+        .arg("0")
+        .env("MV_C02_CHILD", &spec)
+        .output();
+    let mut g = GOutcome { answer: String::new(), taken: vec![], mtaken: vec![], choices: vec![], fails: vec![] };
+    match outp {
+        Err(e) => g.fails.push(("global path: child process could not be started".into(), e.to_string())),
+        Ok(o) => {
+            let text = String::from_utf8_lossy(&o.stdout);
+            for l in text.lines() {
+                if let Some(a) = l.strip_prefix("ANSWER ") {
+                    g.answer = a.to_string();
+                } else if let Some(a) = l.strip_prefix("TAKEN ") {
+                    g.taken = if a == "-" { vec![] } else { a.split('.').map(|x| x.parse().unwrap()).collect() };
+                } else if let Some(a) = l.strip_prefix("MTAKEN ") {
+                    g.mtaken = if a == "-" { vec![] } else { a.split('.').map(|x| x.parse().unwrap()).collect() };
+                } else if let Some(a) = l.strip_prefix("CHOICES ") {
+                    g.choices = a
+                        .split(',')
+                        .filter(|x| !x.is_empty())
+                        .map(|c| c.split('.').map(|x| x.parse().unwrap()).collect())
+                        .collect();
+                } else if let Some(a) = l.strip_prefix("FAIL ") {
+                    let (w, d) = a.split_once(" :: ").unwrap_or((a, ""));
+                    g.fails.push((w.to_string(), d.to_string()));
+                }
+            }
+            if !o.status.success() || g.answer.is_empty() {
+                let err = String::from_utf8_lossy(&o.stderr);
+                let tail: String = err.chars().rev().take(600).collect::<String>().chars().rev().collect();
+                g.fails.push((
+                    "global path: the process crashed or aborted during install/emit".into(),
+                    format!("spec {} status {:?} stderr …{}", spec, o.status.code(), tail),
+                ));
+                if g.answer.is_empty() {
+                    g.answer = "<crashed>".into();
+                }
+            }
+        }
+    }
+    g
+}
+
+fn one_global(cfg: &Cfg, out: &mut Out, progs: &[Vec<GCall>], schedule: &[usize], salt: usize) -> GOutcome {
+    let g = run_child(cfg, progs, schedule, salt);
+    out.op(&format!("cell grun {} {}", gprogs_tok(progs, true), sched::sched_tok(&g.mtaken)), &g.answer);
+    for (w, d) in &g.fails {
+        out.oracle_fail(w, d);
+    }
+    // non-trivial: some thread's emission answered none and a later emission OF THE SAME THREAD reached the
+    // installed recorder (the long-lived thread that saw "before" and "after")
+    let res_part = g.answer.split(" | ").nth(1).unwrap_or("");
+    let mut long_lived = false;
+    for th in res_part.split(',') {
+        let rs: Vec<&str> = th.split('+').collect();
+        if let Some(p) = rs.iter().position(|r| *r == "none") {
+            if rs[p + 1..].iter().any(|r| r.starts_with("some")) {
+                long_lived = true;
+            }
+        }
+    }
+    if long_lived {
+        out.nontrivial();
+        out.count("global.thread.saw.before.and.after");
+    }
+    g
+}
+
+fn gen_gprogs(r: &mut Rng) -> Vec<Vec<GCall>> {
+    let n = r.range(2, 4);
+    let mut next_id = 1;
+    let mut progs = vec![];
+    let installer = r.below(n);
+    for t in 0..n {
+        let mut p = vec![];
+        let k = r.range(1, 4);
+        let install_at = if t == installer { Some(r.below(k)) } else { None };
+        for j in 0..k {
+            if Some(j) == install_at || r.chance(1, 6) {
+                p.push(GCall::Install(next_id));
+                next_id += 1;
+            } else if r.chance(1, 6) {
+                p.push(GCall::EmitLocal(20 + r.below(4), r.below(NFORMS)));
+            } else {
+                p.push(GCall::Emit(r.below(NFORMS)));
+            }
+        }
+        progs.push(p);
+    }
+    // the long-lived emitter: one non-installing thread (if any) emits at least twice
+    if let Some(t) = (0..n).find(|t| *t != installer) {
+        while progs[t].iter().filter(|c| matches!(c, GCall::Emit(_))).count() < 2 {
+            let f = r.below(NFORMS);
+            progs[t].push(GCall::Emit(f));
+        }
+    }
+    progs
+}
+
+/// all schedules of `progs` by replay in child processes; returns (runs, exhausted)
+fn exhaustive_global(cfg: &Cfg, out: &mut Out, progs: &[Vec<GCall>], salt: usize, limit: usize) -> (usize, bool) {
+    let mut prefix: Vec<usize> = vec![];
+    let mut runs = 0usize;
+    loop {
+        let g = one_global(cfg, out, progs, &prefix, salt);
+        runs += 1;
+        if runs >= limit || g.answer == "<crashed>" {
+            return (runs, false);
+        }
+        let mut i = g.taken.len().min(g.choices.len());
+        let mut next = None;
+        while i > 0 {
+            i -= 1;
+            if let Some(alt) = g.choices[i].iter().copied().filter(|c| *c > g.taken[i]).min() {
+                next = Some((i, alt));
+                break;
+            }
+        }
+        match next {
+            None => return (runs, true),
+            Some((i, alt)) => {
+                prefix = g.taken[..i].to_vec();
+                prefix.push(alt);
+            }
+        }
+    }
+}
+
 pub fn run(cfg: &Cfg, out: &mut Out) {
+    if let Ok(spec) = std::env::var("MV_C02_CHILD") {
+        child(&spec);
+        std::process::exit(0);
+    }
     let root = Rng::new(cfg.seed);
     // corpus: the classic shapes
     let corpus: Vec<(Vec<Vec<Call>>, Vec<usize>)> = vec![
@@ -241,25 +1005,58 @@ pub fn run(cfg: &Cfg, out: &mut Out) {
         (vec![vec![Call::Set(1)], vec![Call::Load]], vec![0, 1, 0, 0, 1, 0, 1]),
         (vec![vec![Call::Set(1), Call::Set(2)], vec![Call::Set(3), Call::Load]], vec![1, 0, 0, 1, 1, 0, 1]),
     ];
-    for (progs, sch) in corpus {
-        out.case("corpus");
-        one(out, &progs, &sch);
+    for (ci, (progs, sch)) in corpus.into_iter().enumerate() {
+        for salt in 0..NKINDS {
+            out.case(&format!("corpus {} salt {}", ci, salt));
+            one(out, &progs, &sch, salt);
+        }
+    }
+    // corpus of the global path: the long-lived emitter that looks before and after the installation
+    // (witness shape of seeded defect C02-4: a per-thread memo of the lookup), installers racing, local scopes
+    let gcorpus: Vec<(Vec<Vec<GCall>>, Vec<usize>)> = vec![
+        (vec![vec![GCall::Emit(1), GCall::Emit(1)], vec![GCall::Install(1)]], vec![0, 0, 0, 1, 1, 1, 1, 1, 0, 0, 0]),
+        (vec![vec![GCall::Emit(0), GCall::Emit(2), GCall::Emit(3)], vec![GCall::Install(1), GCall::Emit(1)], vec![GCall::Install(2)]],
+         vec![0, 1, 2, 0, 1, 2, 0, 1, 2, 1, 0, 1, 1, 0, 0, 1, 1, 0, 0, 0, 0, 2, 1, 1, 1, 0, 0, 0]),
+        (vec![vec![GCall::Emit(4), GCall::EmitLocal(21, 1), GCall::Emit(5)], vec![GCall::Install(3), GCall::Install(4)]],
+         vec![0, 0, 0, 1, 1, 1, 1, 1, 0, 0, 1, 1, 0, 0, 0]),
+        (vec![vec![GCall::Install(1), GCall::Emit(1)], vec![GCall::Install(2), GCall::Emit(2)], vec![GCall::Emit(3), GCall::Emit(0)]],
+         vec![2, 2, 0, 1, 0, 1, 0, 2, 2, 0, 0, 1, 1, 2]),
+        (vec![vec![GCall::Emit(0)], vec![GCall::Emit(1), GCall::Emit(1)]], vec![0, 1, 0, 1]),
+    ];
+    for (ci, (progs, sch)) in gcorpus.into_iter().enumerate() {
+        for salt in [0usize, 1, 2, 3, 4] {
+            out.case(&format!("global corpus {} salt {}", ci, salt));
+            one_global(cfg, out, &progs, &sch, salt);
+        }
     }
     for i in 0..cfg.cases {
         let mut r = root.fork(i as u64);
         out.case(&format!("seed={} i={}", cfg.seed, i));
         let progs = gen_progs(&mut r);
-        // random schedule with bursts (a thread keeps the token for a while, then a switch)
-        let mut sch = vec![];
-        let mut cur = r.below(progs.len());
-        for _ in 0..40 {
-            if r.chance(1, 2) {
-                cur = r.below(progs.len());
-            }
-            sch.push(cur);
-        }
+        let sch = bursty(&mut r, progs.len(), 40);
+        let salt = r.below(NKINDS * 3);
         out.count(&format!("threads={}", progs.len()));
-        one(out, &progs, &sch);
+        one(out, &progs, &sch, salt);
+    }
+    // the real global path: a third as many cases (one process each)
+    let gcases = if cfg.thorough { cfg.cases / 4 } else { cfg.cases / 3 };
+    for i in 0..gcases {
+        let mut r = root.fork(1_000_000 + i as u64);
+        out.case(&format!("global seed={} i={}", cfg.seed, i));
+        let progs = gen_gprogs(&mut r);
+        let sch = bursty(&mut r, progs.len(), 72);
+        let salt = r.below(NKINDS * 3);
+        out.count(&format!("global.threads={}", progs.len()));
+        for p in &progs {
+            for c in p {
+                match c {
+                    GCall::Install(id) => out.count(&format!("global.install.{}", kind_name(kind_of(*id, salt)))),
+                    GCall::Emit(f) => out.count(&format!("global.emit.{}", form_name(*f))),
+                    GCall::EmitLocal(_, _) => out.count("global.emit.under-local"),
+                }
+            }
+        }
+        one_global(cfg, out, &progs, &sch, salt);
     }
     if cfg.thorough {
         // exhaustive: all schedules of small configurations, each replayed on the model
@@ -268,7 +1065,7 @@ pub fn run(cfg: &Cfg, out: &mut Out) {
             vec![vec![Call::Set(1)], vec![Call::Set(2), Call::Load], vec![Call::Load]],
             vec![vec![Call::Set(1), Call::Load], vec![Call::Load, Call::Set(2)]],
         ];
-        for progs in configs {
+        for (ci, progs) in configs.into_iter().enumerate() {
             let mut all: Vec<(Vec<usize>, Outcome)> = vec![];
             let p2 = progs.clone();
             let (runs, exhausted) = {
@@ -276,7 +1073,7 @@ pub fn run(cfg: &Cfg, out: &mut Out) {
                 let mut runs = 0usize;
                 let mut exhausted = false;
                 loop {
-                    let o = execute(&p2, &prefix);
+                    let o = execute(&p2, &prefix, ci + runs % NKINDS);
                     runs += 1;
                     let taken: Vec<usize> = o.run.trace.iter().map(|(t, _)| *t).collect();
                     let choices = o.run.choices.clone();
@@ -318,16 +1115,35 @@ pub fn run(cfg: &Cfg, out: &mut Out) {
             }
             out.nontrivial();
         }
+        // all schedules of small programs on the real global path (one process per schedule)
+        let gconfigs: Vec<Vec<Vec<GCall>>> = vec![
+            vec![vec![GCall::Emit(1), GCall::Emit(0)], vec![GCall::Install(1)]],
+            vec![vec![GCall::Install(1), GCall::Emit(2)], vec![GCall::Emit(3), GCall::Install(2)]],
+            vec![vec![GCall::Emit(1), GCall::EmitLocal(20, 1), GCall::Emit(1)], vec![GCall::Install(1)], vec![GCall::Install(2)]],
+        ];
+        for (ci, progs) in gconfigs.into_iter().enumerate() {
+            out.case(&format!("global exhaustive {}", gprogs_tok(&progs, true)));
+            let (runs, exhausted) = exhaustive_global(cfg, out, &progs, ci, 20000);
+            out.count_n(&format!("global.exhaustive.runs.{}", gprogs_tok(&progs, true)), runs as u64);
+            out.count(&format!("global.exhaustive.complete={}", exhausted));
+        }
     }
 }
 
-fn one(out: &mut Out, progs: &[Vec<Call>], sch: &[usize]) {
-    let o = execute(progs, sch);
+fn one(out: &mut Out, progs: &[Vec<Call>], sch: &[usize], salt: usize) {
+    let o = execute(progs, sch, salt);
     let taken: Vec<usize> = o.run.trace.iter().map(|(t, _)| *t).collect();
     out.op(
         &format!("cell run {} {}", list(progs.iter().map(|p| prog_tok(p))), sched::sched_tok(&taken)),
         &answer(&o),
     );
+    for p in progs {
+        for c in p {
+            if let Call::Set(id) = c {
+                out.count(&format!("install.{}", kind_name(kind_of(*id, salt))));
+            }
+        }
+    }
     // non-trivial: at least one context switch between the winner's CAS and its publishing store
     let cas = o.run.trace.iter().position(|(_, id)| *id == "cell.set.write");
     let st = o.run.trace.iter().position(|(_, id)| *id == "cell.set.store");
